@@ -15,7 +15,7 @@ monotone map; `inf` is printed for a stored minimum `float("inf")`):
   `clean <edges;…>`  -> `ok <cleaned edges>`
   `gpipe <zero> <sample;…> <lo> <hi> <edges;…> <queries;…>`
       the same pipeline through the functions REGENERATED from the current source (`Gen/Centrality.lean`, tie T):
-      `genBuild`, `genLookup`, and the cut indices through `genRank` evaluated at `Float` (an edge travels as the
+      `genInit` (edge cleaning), `genBuild`, `genLookup`, and the cut indices through `genRank` evaluated at `Float` (an edge travels as the
       bit pattern of its non-negative double, so the driver recovers the double itself; `int()` = truncation);
       no rank table is supplied.  Same answer format as `pipe`.
   `grun <zero> <sample;…> <R;…> <queries;…>`   `genBuild` (rank boundaries given, `rank = id`) + `genLookup`
@@ -70,9 +70,9 @@ def handle : List String → String
   | ["gpipe", zero, sample, lo, hi, edges, qs] =>
     match zero.toInt?, intList? sample, lo.toInt?, hi.toInt?, intList? edges, intList? qs with
     | some z, some s, some lo, some hi, some es, some qs =>
-      if !(edgesInRange lo hi es) then showErr .value
-      else
-        let cl := cleanEdges es
+      match genInit lo hi es with
+      | .error e => showErr e
+      | .ok cl =>
         match genBuild (fun k : Int => genRank floatToNat s.length (edgeOfKey k)) z s cl with
         | .error e => showErr e
         | .ok C => s!"ok {showList (cl.map toString)} " ++ ganswer C qs
